@@ -102,6 +102,8 @@ def model_value(m, x):
 
 def jsonable(x):
     if isinstance(x, np.ndarray):
+        if x.dtype.kind == 'c':
+            return np.stack([x.real, x.imag], axis=-1).tolist()      # complex arrays are written as [..., (re, im)]
         return x.tolist()
     if isinstance(x, np.generic):
         return x.item()
@@ -109,8 +111,8 @@ def jsonable(x):
         return [jsonable(y) for y in x]
     if isinstance(x, dict):
         return {str(k): jsonable(v) for k, v in x.items()}
-    if isinstance(x, complex):
-        return [x.real, x.imag]
+    if isinstance(x, (complex, np.complexfloating)):
+        return [float(x.real), float(x.imag)]
     if isinstance(x, (int, float, str, bool)) or x is None:
         return x
     return repr(x)
